@@ -22,7 +22,7 @@ CO = T.var('C_o')           # WCET of another task o
 def record(m, spec, symbols):
     """equations of one analysis, expressed over common symbols"""
     def norm(t):
-        t = T.norm_bv(t)
+        t = T.norm_bv(T.alpha(t))     # binders numbered by nesting: independent lambdas of one term all start at $0
         return T.substitute(t, symbols)
 
     rec = {}
